@@ -32,7 +32,7 @@ pub const NAMES_C15: &[&str] = &[
 ];
 
 // "Aa" and "BB" (and their concatenations) collide under the classic h*31+c string hash
-pub const PATTERNS: &[&str] = &["a", "a|b", "x.y", "^a", "b$", "[ab]+", "(", "\\d+", "(?i)A", ".*", "a.*", "ab", "Aa", "BB", "AaBB", "BBAa"];
+pub const PATTERNS: &[&str] = &["a", "a|b", "x.y", "^a", "b$", "[ab]+", "(", "\\d+", "(?i)A", ".*", "a.*", "ab", "Aa", "BB", "AaBB", "BBAa", "[a", "*a"];
 
 pub const STRINGS: &[&str] = &["", "a", "b", "ab", "xay", "A", "1", "aa", "ba", "a b", " a", "a\tb", "Aa", "BB"];
 
@@ -594,12 +594,15 @@ impl<'a> QGen<'a> {
         let w_ext = if self.ext { 2 } else { 0 };
         if self.unknown_fn && rng.chance(1, 40) {
             let arg = if rng.chance(1, 2) { "@".to_string() } else { self.singular(rng) };
-            let name = *rng.pick(&["frob", "custom_fn", "is_even"]);
+            // names nobody defines today — some invented, some that an implementation might one day
+            // add to its own `extension_custom` (a type that keeps the provided method will not have them)
+            let name = *rng.pick(&["frob", "custom_fn", "is_even", "starts_with", "ends_with", "contains", "lower", "upper", "len", "size", "keys", "type_of", "abs", "min", "max", "sum", "is_null", "exists", "concat", "not_in", "all_of", "one_of"]);
+            let arg = if rng.chance(1, 2) { arg } else { format!("{}, {}", arg, self.literal(rng)) };
             return match rng.below(5) {
                 0 => format!("value({}({})) == null", name, arg),
                 1 => format!("value({}({})) != false", name, arg),
                 2 => format!("{}({})", name, arg),
-                3 => format!("!{}({}, 1)", name, arg),
+                3 => format!("!{}({})", name, arg),
                 _ => format!("count({}({})) == 1", name, arg),
             };
         }
